@@ -115,7 +115,15 @@ def translate(rate_text, fmt_cols="idx,r,r,r,p,p,p,p,p,tmin,tmax,rate"):
     KROMEReaction.initialize()
     line = f"1,H,H,,H2,,,,NONE,NONE,{rate_text}"
     r = KROMEReaction(line)
-    return r.rateexpr()
+    first = r.rateexpr()
+    again = r.rateexpr()  # str(reaction), Network.write(..., "krome") and every rendering call it again
+    if again != first:
+        raise NotRepeatable(first, again)
+    return first
+
+
+class NotRepeatable(Exception):
+    pass
 
 
 def eval_c(ctext, env, nvals):
@@ -191,6 +199,9 @@ def compare_text(text, tree, seed, failures, labels, origin=""):
     """Translate `text`; compare with the Fortran value of `tree` at 5 valuations."""
     try:
         ctext = translate(text)
+    except NotRepeatable as e:
+        failures.append(("krome/translation-not-repeatable", f"{origin}{text!r}: first call gives {e.args[0]!r}, a second call on the same reaction gives {e.args[1]!r}"))
+        return "translated", e.args[0]
     except Exception as e:
         return "rejected", f"{type(e).__name__}"
     names = names_in(tree, set())
